@@ -314,6 +314,10 @@ def dispatch(ctx):
                 # `value.clone_into(&mut self.field)`: the same store, reusing the allocation
                 ci = [e for e in lf.events if e[0] == "call" and last_seg(e[3]) == "clone_into" and len(e[4][2]) == 2]
                 ok = len(ci) == 1 and look(ci[0][4][2][0]) == ("arg", 2) and self_field(ci[0][4][2][1], field)
+                if not ok:
+                    # `self.field.clear(); self.field.push_str(value)`: emptied, then exactly the argument appended
+                    ops = [e for e in lf.events if e[0] == "call" and e[4][2] and self_field(e[4][2][0], field) and last_seg(e[3]) not in ("as_str", "len", "is_empty", "capacity", "deref", "as_ref")]
+                    ok = [last_seg(e[3]) for e in ops] == ["clear", "push_str"] and look(ops[1][4][2][1]) == ("arg", 2)
             ctx.ob("R17.4", "setter|%s" % hname, ok, "%s stores its argument in self.%s" % (hname, field), f2.loc(0))
 
 
